@@ -333,7 +333,7 @@ def law_harnesses(td):
         w.append("#[cfg_attr(kani, kani::ensures(|r: &bool| *r))]\npub fn lw_%s(%s) -> bool { %s }" % (name, args, cond))
         mk = " ".join("let %s = <%s as Mk>::mk(&mut s);" % (v, T) for v in "xyz"[:nvals])
         call = ", ".join("&" + v for v in "xyz"[:nvals])
-        if name == "eq_hash":
+        if name in ("eq_hash", "eq_pcmp", "pcmp_cmp"):   # partial_cmp (Option::map) and the recording Hasher are too costly under contract instrumentation
             p.append("    #[kani::proof]\n    pub fn law_%s() { let mut s = KaniSrc; %s let r = lw_%s(%s); assert!(r, \"postcondition of lw_%s\"); kani::cover!(true); }" % (name, mk, name, call, name))
         else:
           p.append("    #[kani::proof_for_contract(lw_%s)]\n    pub fn law_%s() { let mut s = KaniSrc; %s let _r = lw_%s(%s); kani::cover!(true); }" % (name, name, mk, name, call))
